@@ -26,7 +26,9 @@ EXPLANATION = (
     'R-C11.6 ProjectSignature.get_app_sig resolves an app id by exact match before the legacy-label alias (shared with R-C15.5); '
     'R-C11.7 a REFERENCES clause names the related primary key field\'s current column (shared with R-C01.10).'
     ' '
-    "R-C11.8 positions read from PRAGMA foreign_key_list / index_list / index_info rows agree with SQLite's documented layout for the role they are used in (referenced table = 2, referenced column = 4, index name = 1, unique = 2, column name = 2).")
+    "R-C11.8 positions read from PRAGMA foreign_key_list / index_list / index_info rows agree with SQLite's documented layout for the role they are used in (referenced table = 2, referenced column = 4, index name = 1, unique = 2, column name = 2)."
+    ' '
+    'hygiene .97: a list filled with tuples of named values and consumed by unpacking uses the names in the same order on both sides (closure consumers included).')
 NOT_DECIDED = (
     'Absence of dangling references for all signatures and sequences; '
     'foreign-key validity in the database after the generated SQL.')
@@ -139,8 +141,8 @@ def _loop_nest(f: Func, store: ast.AST):
     return path
 
 
-def r2_rewrite_loops(ctx):
-    ctx.rule('R-C11.2')
+def r2_rewrite_loops(ctx, rule_id='R-C11.2'):
+    ctx.rule(rule_id)
     p = ctx.program
     for mod, q, extra_ok in (
             ('mutations.rename_model', 'RenameModel.simulate', ()),
